@@ -17,7 +17,7 @@ CONSTANTS
   IdSeqs = {}
   Names = {"tau", "my_p", "sources"}
   Shapes = {"scalar", "len1", "len2", "len12"}
-  Paths = {"df", "pt", "csv", "json"}
+  Paths = {"df", "pt", "csv", "json", "json_sorted"}
   MaxParams = 3
   ScalarOK = FALSE
   UnderscoreOK = FALSE
@@ -81,7 +81,7 @@ def add_rules(ids, decls, rnd, ip=None):
 
 
 def run_case(ids, decls, path, rnd, tmp):
-    rec = {"ids": list(ids), "decls": decls, "path": path, "out": [], "ids_out": [], "values_ok": False, "adds_after_ok": False}
+    rec = {"ids": list(ids), "decls": decls, "path": path, "out": [], "ids_out": [], "values_ok": False, "adds_after_ok": False, "chain_ok": False}
     with warnings.catch_warnings():
         warnings.simplefilter("ignore")
         rec["adds_ok"] = bool(add_rules(ids, decls, rnd))
@@ -92,8 +92,8 @@ def run_case(ids, decls, path, rnd, tmp):
             elif path == "pt":
                 out = IndividualParameters.from_pytorch(*ip.to_pytorch())
             else:
-                f = os.path.join(tmp, f"ip_{rnd.random()}.{path}")
-                ip.save(f)
+                f = os.path.join(tmp, f"ip_{rnd.random()}.{'json' if path.startswith('json') else path}")
+                ip.save(f, **({"sort_keys": True} if path == "json_sorted" else {}))
                 out = IndividualParameters.load(f)
                 os.remove(f)
             rec["status"] = "ok"
@@ -118,6 +118,23 @@ def run_case(ids, decls, path, rnd, tmp):
             # shapes consistent over individuals
             ok = ok and [shape_of(v) for v in got.values()] == [d["shape"] for d in rec["out"]]
     rec["values_ok"] = bool(ok)
+    # chain: the converted container goes on to the tensor form - identifiers in order, every row that of its identifier
+    chain = False
+    try:
+        with warnings.catch_warnings():
+            warnings.simplefilter("ignore")
+            ids2, tens = out.to_pytorch()
+        chain = list(ids2) == list(ids)
+        ren = {"my": "my_p"}
+        for n, t in tens.items():
+            for r, i in enumerate(ids2):
+                src = vals[i].get(n, vals[i].get(ren.get(n, n)))
+                a = np.atleast_1d(np.asarray(t[r], dtype=float)).reshape(-1)
+                b = np.atleast_1d(np.asarray(src, dtype=float)).reshape(-1)
+                chain = chain and a.shape == b.shape and bool(np.all(np.abs(a - b) <= 1e-6 * (1 + np.abs(b))))
+    except Exception:  # noqa: BLE001
+        chain = False
+    rec["chain_ok"] = bool(chain)
     with warnings.catch_warnings():
         warnings.simplefilter("ignore")
         rec["adds_after_ok"] = bool(add_rules(None, None, rnd, ip=out)) if out._indices else False
@@ -127,7 +144,7 @@ def run_case(ids, decls, path, rnd, tmp):
 def run(ctx):
     q = ctx.quick
     ctx.rule = ("TLC enumerates every container (5 identifier sequences incl. all-numeric-looking ids in non-canonical form, 1-2 (1-3 in the thorough tier) parameters out of 3 names "
-                "x 4 shapes incl. 12 components) x 4 conversion paths of IndParams.tla and checks Lossless on the intended design and "
+                "x 4 shapes incl. 12 components) x 5 conversion paths (table, tensor, csv, json, json with sorted keys) of IndParams.tla and checks Lossless on the intended design and "
                 "LosslessExceptNamed on the as-built one; every case is built as a real IndividualParameters with seeded values, "
                 "converted there and back, and TLC compares status, names, shapes, identifiers and value equality with "
                 "Expected (IndParamsTrace.tla), checks the addition rules (11 refusals, 1 acceptance per case, on the built container and again on the converted one) and that the "
